@@ -229,12 +229,19 @@ def _key_determines_fill(prog, rule, c, sc):
     for n in walk_no_nested(sc.node):
         if isinstance(n, ast.Assign) and len(n.targets) == 1 and isinstance(n.targets[0], ast.Name):
             alias[n.targets[0].id] = n.value
-    subs = [n.value for n in walk_no_nested(sc.node) if isinstance(n, ast.Assign) and any(src(t) == 'self._index_cache' for t in n.targets)
-            and isinstance(n.value, ast.Subscript)]
-    if not subs:
+    # every access to the registry (REG[k], REG.get(k), REG.setdefault(k, ...)) uses one key, and the lookup dict is assigned from it
+    regs = {'self._index_caches'} | {k for k, v in alias.items() if src(v).endswith('._index_caches')}
+    keys = []
+    for n in walk_no_nested(sc.node):
+        if isinstance(n, ast.Subscript) and src(n.value) in regs:
+            keys.append(n.slice)
+        elif isinstance(n, ast.Call) and isinstance(n.func, ast.Attribute) and n.func.attr in ('get', 'setdefault') and src(n.func.value) in regs and n.args:
+            keys.append(n.args[0])
+    assigned = any(isinstance(n, ast.Assign) and any(src(t) == 'self._index_cache' for t in n.targets) for n in walk_no_nested(sc.node))
+    if not keys or not assigned or len({src(k) for k in keys}) != 1:
         rule.fail('MaterialIndexer._set_cache', 'key', 'the index cache is not taken from the registry by key', sc, sc.node)
         return
-    key = subs[0].slice
+    key = keys[0]
     if isinstance(key, ast.Name) and key.id in alias:
         key = alias[key.id]
     elems = [src(e) for e in (key.elts if isinstance(key, ast.Tuple) else [key])]
